@@ -172,6 +172,15 @@ fn run(a: &[&str]) -> String {
         "u64_sub_u" => fu(&(pu64(a[1]) - pu(a[2]))),
         "uchecked_sub" => opt(pu(a[1]).checked_sub(&pu(a[2])), fu),
         "umul" => fu(&(&pu(a[1]) * &pu(a[2]))),
+        "umul_vv" => fu(&(pu(a[1]) * pu(a[2]))),
+        "umul_vr" => fu(&(pu(a[1]) * &pu(a[2]))),
+        "umul_rv" => fu(&(&pu(a[1]) * pu(a[2]))),
+        "umul_assign" => { let mut x = pu(a[1]); x *= &pu(a[2]); fu(&x) }
+        "umul_assign_v" => { let mut x = pu(a[1]); x *= pu(a[2]); fu(&x) }
+        "udiv_vv" => fu(&(pu(a[1]) / pu(a[2]))),
+        "udiv_assign" => { let mut x = pu(a[1]); x /= &pu(a[2]); fu(&x) }
+        "urem_vv" => fu(&(pu(a[1]) % pu(a[2]))),
+        "urem_assign" => { let mut x = pu(a[1]); x %= &pu(a[2]); fu(&x) }
         "umul_u64" => fu(&(pu(a[1]) * pu64(a[2]))),
         "udivrem" => { let (q, r) = pu(a[1]).div_rem(&pu(a[2])); format!("{} {}", fu(&q), fu(&r)) }
         "udiv" => fu(&(&pu(a[1]) / &pu(a[2]))),
@@ -310,6 +319,14 @@ fn run(a: &[&str]) -> String {
         "isub_i64" => fi(&(pi(a[1]) - pi64(a[2]))),
         "i64_sub_i" => fi(&(pi64(a[1]) - pi(a[2]))),
         "imul" => fi(&(&pi(a[1]) * &pi(a[2]))),
+        "imul_vv" => fi(&(pi(a[1]) * pi(a[2]))),
+        "imul_vr" => fi(&(pi(a[1]) * &pi(a[2]))),
+        "imul_rv" => fi(&(&pi(a[1]) * pi(a[2]))),
+        "imul_assign" => { let mut x = pi(a[1]); x *= &pi(a[2]); fi(&x) }
+        "idiv_vv" => fi(&(pi(a[1]) / pi(a[2]))),
+        "idiv_assign" => { let mut x = pi(a[1]); x /= &pi(a[2]); fi(&x) }
+        "irem_vv" => fi(&(pi(a[1]) % pi(a[2]))),
+        "irem_assign" => { let mut x = pi(a[1]); x %= &pi(a[2]); fi(&x) }
         "imul_i64" => fi(&(pi(a[1]) * pi64(a[2]))),
         "ineg" => fi(&(-pi(a[1]))),
         "idivrem" => { let (q, r) = pi(a[1]).div_rem(&pi(a[2])); format!("{} {}", fi(&q), fi(&r)) }
